@@ -25,6 +25,7 @@ def main():
         props = a.props.split(",") if a.props else ([meta["property"]] + meta.get("also_check", []))
         head = sh("git -C /repo rev-parse HEAD").stdout.strip()
         sh("git -C %s checkout -q --detach %s && git -C %s checkout -- . && git -C %s clean -fdq" % (WT, head, WT, WT))
+        sh("cp /repo/Cargo.lock %s/Cargo.lock" % WT)   # ignored by git, so not in a worktree
         r = sh("git -C %s apply %s" % (WT, os.path.join(d, "patch.diff")))
         if r.returncode != 0:
             print(sid, "patch does not apply:", r.stdout); continue
